@@ -5,6 +5,7 @@ import (
 	"sort"
 
 	oracletypes "github.com/tellor-io/layer/x/oracle/types"
+	registrytypes "github.com/tellor-io/layer/x/registry/types"
 	reportertypes "github.com/tellor-io/layer/x/reporter/types"
 
 	"cosmossdk.io/collections"
@@ -191,4 +192,19 @@ func eqBytes(a, b []byte) bool { return bytes.Equal(a, b) }
 
 func collJoinReport(queryID []byte, reporter sdk.AccAddress, height uint64) collections.Pair[[]byte, collections.Pair[[]byte, uint64]] {
 	return collections.Join(queryID, collections.Join([]byte(reporter), height))
+}
+
+type SpecInfo struct {
+	Type string
+	Spec registrytypes.DataSpec
+}
+
+// Specs lists the registered data specs (keys are lower-cased query types).
+func (v *View) Specs() []SpecInfo {
+	var out []SpecInfo
+	_ = v.n.App.RegistryKeeper.SpecRegistry.Walk(v.ctx, nil, func(k string, d registrytypes.DataSpec) (bool, error) {
+		out = append(out, SpecInfo{Type: k, Spec: d})
+		return false, nil
+	})
+	return out
 }
